@@ -638,8 +638,10 @@ class HandshakeSettings(object):
         # enabled and no older version to fall back to, not a single
         # signature algorithm could be advertised
         tls13_hashes = ("sha256", "sha384", "sha512")
+        # (and RSA signatures are RSA-PSS ones there)
         if other.minVersion >= (3, 4) and not other.more_sig_schemes and \
-                not any(i in tls13_hashes for i in other.rsaSigHashes) and \
+                not ("pss" in other.rsaSchemes and
+                     any(i in tls13_hashes for i in other.rsaSigHashes)) and \
                 not any(i in tls13_hashes for i in other.ecdsaSigHashes):
             raise ValueError("TLS 1.3 requires a SHA-256, SHA-384 or SHA-512 "
                              "(or EdDSA) signature algorithm to be enabled")
